@@ -163,7 +163,7 @@ example : ((((State.init (cfgP false)).simStart.steps 1).mods[0]?).map (·.activ
 
 /-- module 0 spawns a joined task that panics; the stereotype catches -/
 def q2 : Prog :=
-  { onMsg := fun id => if id = 1 then [.spawn 3 2 true] else [.log id],
+  { onMsg := fun id => if id = 1 then [.spawn 3 2 true true] else [.log id],
     onStart := fun _ => [], onEnd := [], onTask := fun _ => [.panic] }
 def cfgJ : Config :=
   { mods := [⟨q2, 1, true⟩], links := [], inits := [(0, 1, 3), (0, 2, 9)] }
@@ -177,7 +177,7 @@ theorem joined_task_panic_ignores_stereotype_witness :
 
 /-- module 0 spawns a task (sleep 4) and panics in a later handler before the task is due -/
 def q3 : Prog :=
-  { onMsg := fun id => if id = 1 then [.spawn 3 4 false] else [.panic],
+  { onMsg := fun id => if id = 1 then [.spawn 3 4 false false] else [.panic],
     onStart := fun _ => [], onEnd := [], onTask := fun _ => [.log 33] }
 def cfgE : Config :=
   { mods := [⟨q3, 1, false⟩, ⟨q1, 1, false⟩], links := [], inits := [(0, 1, 3), (0, 2, 5), (1, 4, 20)] }
